@@ -201,7 +201,7 @@ func (flogs *fileLogs) readEntireVersion(dataID, version dvid.UUID, processor fu
 	}
 
 	if found {
-		f2, err2 := os.OpenFile(filename, os.O_WRONLY|os.O_CREATE|os.O_APPEND|os.O_SYNC, 0755)
+		f2, err2 := openWriteLog(filename)
 		if err2 != nil {
 			dvid.Errorf("unable to reopen write log %s: %v\n", k, err)
 		} else {
@@ -272,7 +272,7 @@ func (flogs *fileLogs) ReadAll(dataID, version dvid.UUID) ([]storage.LogMessage,
 	}
 
 	if found {
-		f2, err2 := os.OpenFile(filename, os.O_WRONLY|os.O_CREATE|os.O_APPEND|os.O_SYNC, 0755)
+		f2, err2 := openWriteLog(filename)
 		if err2 != nil {
 			dvid.Errorf("unable to reopen write log %s: %v\n", k, err)
 		} else {
@@ -342,7 +342,7 @@ func (flogs *fileLogs) StreamAll(dataID, version dvid.UUID, ch chan storage.LogM
 	}
 
 	if found {
-		f2, err2 := os.OpenFile(filename, os.O_WRONLY|os.O_CREATE|os.O_APPEND|os.O_SYNC, 0755)
+		f2, err2 := openWriteLog(filename)
 		if err2 != nil {
 			dvid.Errorf("unable to reopen write log %s: %v\n", k, err)
 		} else {
@@ -355,6 +355,46 @@ func (flogs *fileLogs) StreamAll(dataID, version dvid.UUID, ch chan storage.LogM
 	return nil
 }
 
+// openWriteLog opens a log file for appending.  A record torn by a crash is cut off first, so
+// that the next append is not glued to it: the file then ends with its last complete record.
+func openWriteLog(filename string) (*os.File, error) {
+	f, err := os.OpenFile(filename, os.O_RDWR|os.O_CREATE|os.O_APPEND|os.O_SYNC, 0755)
+	if err != nil {
+		return nil, err
+	}
+	if err := trimTornTail(f); err != nil {
+		f.Close()
+		return nil, err
+	}
+	return f, nil
+}
+
+// trimTornTail truncates the file after its last completely written record.
+func trimTornTail(f *os.File) error {
+	fi, err := f.Stat()
+	if err != nil {
+		return err
+	}
+	size := fi.Size()
+	hdr := make([]byte, 6)
+	var pos int64
+	for pos+6 <= size {
+		if _, err := f.ReadAt(hdr, pos); err != nil {
+			return err
+		}
+		next := pos + 6 + int64(binary.LittleEndian.Uint32(hdr[2:6]))
+		if next > size {
+			break
+		}
+		pos = next
+	}
+	if pos < size {
+		dvid.Criticalf("log %q ends in a torn record: cutting %d bytes after position %d\n", f.Name(), size-pos, pos)
+		return f.Truncate(pos)
+	}
+	return nil
+}
+
 func (flogs *fileLogs) getWriteLog(topic string) (fl *fileLog, err error) {
 	var found bool
 	flogs.RLock()
@@ -363,7 +403,7 @@ func (flogs *fileLogs) getWriteLog(topic string) (fl *fileLog, err error) {
 	if !found {
 		filename := filepath.Join(flogs.path, topic)
 		var f *os.File
-		f, err = os.OpenFile(filename, os.O_WRONLY|os.O_CREATE|os.O_APPEND|os.O_SYNC, 0755)
+		f, err = openWriteLog(filename)
 		if err != nil {
 			return
 		}
